@@ -27,18 +27,23 @@ def signature(rule: str, detail: Any, desc: dict) -> str:
         kws = sorted({k for ks in kw_detail(detail).values() for k in ks})
         return "C02:invalid-labelled-positive:%s:{%s}:%s" % (cls(t[0] for t in parts if t[1] == "F" and t[2] == "positive"), ",".join(kws), primary(features(desc)))
     if rule in ("negatable-but-no-cases", "not-negatable-not-skipped"):
+        # string-typed path parameters are where negative generation gives up: key the class by their type / format
+        path = sorted({"string" + ("/" + p["schema"]["format"] if "format" in p["schema"] else "") + ("+constraints" if set(p["schema"]) - {"sk", "type", "format"} else "")
+                       for p in desc.get("params", []) if p["loc"] == "path" and p["schema"].get("type") == ["string"]})
+        if path:
+            return "C02:%s:path:%s" % (rule, "+".join(path))
         return "C02:%s:%s" % (rule, primary(features(desc)))
     return "C02:%s" % rule
 
 
 def run(ctx: Ctx) -> Outcome:
-    n = 10 if ctx.quick else 20
+    n = 10 if ctx.quick else 15
     counter = [0]
 
     def jobs_for(d: dict) -> list[dict]:
         jobs = [{"desc": d, "mode": "negative", "modes": ["negative"], "n": n, "seed": ctx.seed}]
         counter[0] += 1
-        if counter[0] % 2 == 0:      # the second mode list for every other descriptor (negative draws cost ~80 ms each)
+        if counter[0] % (2 if ctx.quick else 3) == 0:      # the second mode list for every 2nd / 3rd descriptor (negative draws cost ~80 ms each)
             jobs.append({"desc": d, "mode": "negative", "modes": ["positive", "negative"], "n": n, "seed": ctx.seed})
         return jobs
 
